@@ -128,11 +128,14 @@ impl Runner {
             // one event per record, after the counters and the spectrum were updated
             #[cfg(sfs_verif)]
             verif::event(format_args!(
-                r#"{{"event":"site","kind":"{}","sites":{},"skipped":{},"mass":{:.9}}}"#,
+                r#"{{"event":"site","kind":"{}","sites":{},"skipped":{},"excess_nano":{}}}"#,
                 kind,
                 self.sites,
                 self.skipped,
-                scs.sum()
+                // total mass minus the number of counted records, in 1e-9 units (fits 32 bits)
+                ((scs.sum() - (self.sites - self.skipped) as f64) * 1e9)
+                    .round()
+                    .clamp(-2e9, 2e9) as i64
             ));
         }
 
